@@ -111,6 +111,33 @@ theorem winner (es : List Entry) (n : Str) :
 theorem byKey_sorted (es : List Entry) : (byKey es).Pairwise (fun a b => leKey a b = true) ∧ byKey es ~ es :=
   ⟨pairwise_mergeSort leKey_trans leKey_total es, mergeSort_perm es leKey⟩
 
+/-- one `Style:` line per stored entry (a shared name is written as often as it is stored) -/
+theorem emitted_length (es : List Entry) : (emitted es).length = es.length := by
+  unfold emitted emittedIn names byKey
+  simp [length_mergeSort]
+
+/-- every line written is a stored style carrying the name it is written under -/
+theorem emitted_stored (es : List Entry) (o : Option Def) (h : o ∈ emitted es) :
+    ∃ e ∈ es, o = some e.d := by
+  unfold emitted emittedIn at h
+  obtain ⟨n, hn, rfl⟩ := mem_map.mp h
+  have hn' : n ∈ (byKey es).map (·.d.id) := by
+    unfold names at hn; exact mem_mergeSort.mp hn
+  obtain ⟨e0, he0, rfl⟩ := mem_map.mp hn'
+  have hw := winner es e0.d.id
+  unfold table at hw
+  rw [hw]
+  have hne : (byKey es).filter (fun e => e0.d.id == e.d.id) ≠ [] := by
+    intro hnil
+    have : e0 ∈ (byKey es).filter (fun e => e0.d.id == e.d.id) := mem_filter.mpr ⟨he0, by simp⟩
+    rw [hnil] at this; cases this
+  cases hl : ((byKey es).filter (fun e => e0.d.id == e.d.id)).getLast? with
+  | none => exact absurd (getLast?_eq_none_iff.mp hl) hne
+  | some e1 =>
+    have hm : e1 ∈ (byKey es).filter (fun e => e0.d.id == e.d.id) := mem_of_getLast? hl
+    have hm' : e1 ∈ byKey es := (mem_filter.mp hm).1
+    exact ⟨e1, (mergeSort_perm es leKey).mem_iff.mp hm', rfl⟩
+
 /-- non-vacuity of `winner`: with keys `a`, `b` sharing the name `x`, visiting in key order leaves `b`'s style -/
 example : (tableIn [wA, wB]).lookup ['x'] = some wB.d := by decide
 
